@@ -109,14 +109,18 @@ def digitsVal? : Str → Nat → Bool → Option Nat
       | some v => digitsVal? cs (acc * 10 + v) true
       | none => none
 
+/-- an optional sign: (negative?, the rest) -/
+def signSplit : Str → Bool × Str
+  | [] => (false, [])
+  | c :: r => if c = '-' then (true, r) else if c = '+' then (false, r) else (false, c :: r)
+
 /-- `int(s)`: surrounding whitespace, one optional sign, decimal digits (any script) with single underscores between
     them; anything else is a `ValueError`.  (CPython's limit of 4300 digits is not modelled.) -/
 def intOfStr? (s : Str) : Except PyExc Int :=
-  let body (t : Str) : Option Nat := digitsVal? t 0 false
-  match stripBy isIntSpace s with
-  | '-' :: r => match body r with | some n => .ok (-(n : Int)) | none => .error PyExc.ValueError
-  | '+' :: r => match body r with | some n => .ok (n : Int) | none => .error PyExc.ValueError
-  | r => match body r with | some n => .ok (n : Int) | none => .error PyExc.ValueError
+  let p := signSplit (stripBy isIntSpace s)
+  match digitsVal? p.2 0 false with
+  | some n => .ok (if p.1 then -(n : Int) else (n : Int))
+  | none => .error PyExc.ValueError
 
 /-- `list(map(int, parts))`: the first failing item raises -/
 def mapInt? : List Str → Except PyExc (List Int)
